@@ -150,14 +150,17 @@ static Bytes shape(int k, size_t n) {
     case 11: s.assign(n, '\\'); s[0] = '"'; break;
     case 12: s = "a@"; while (s.size() < n) s += "\xE5\xBE\xAE."; break;
     case 13: s = "a@x."; while (s.size() < n) s += "example."; break;
+    case 14: s = "a@[1.2.3."; while (s.size() + 1 < n) s += '9'; s += "]"; break;
+    case 15: s = "a@["; while (s.size() + 7 < n) s += '4'; s += ".2.3.4]"; break;
+    case 16: s = "a@[IPv6:::ffff:1.2.3."; while (s.size() + 1 < n) s += (s.size() % 2 ? '2' : '9'); s += "]"; break;
     }
     for (auto &c : s) if (c == 0) c = 1;
     return s;
 }
 static void stage_shapes(Run &R) {
     uint64_t idx = 0, total = 0;
-    std::vector<size_t> lens = {0, 1, 2, 63, 64, 65, 66, 253, 254, 255, 256, 257, 1023, 1024, 1025, 4096, 65535, 65536};
-    for (int k = 0; k < 14; k++) for (size_t n : lens) {
+    std::vector<size_t> lens = {0, 1, 2, 12, 16, 19, 20, 21, 30, 63, 64, 65, 66, 253, 254, 255, 256, 257, 1023, 1024, 1025, 4096, 65535, 65536};
+    for (int k = 0; k < 17; k++) for (size_t n : lens) {
         total++; if ((int) (idx++ % R.a.nworkers) != R.a.worker) continue;
         if (!run_one(R, shape(k, n))) return;
         if (!run_one(R, shape(k, n), true)) return;
@@ -165,7 +168,7 @@ static void stage_shapes(Run &R) {
     }
     for (int x = 1; x < 256; x++) { total++; if ((int) (idx++ % R.a.nworkers) != R.a.worker) continue; if (!run_one(R, Bytes(1, (char) x))) return; if (!run_one(R, Bytes(1, (char) x), true)) return; }
     if (auto l = leak_guard(R, true)) R.fail(*l);
-    R.space("C06 14 adversarial shapes x 18 lengths (0, 1, 2, 63-66, 253-257, 1023-1025, 4096, 65535, 65536) + all 1-byte inputs, each also in a read-only page against a guard page", total);
+    R.space("C06 17 adversarial shapes x 24 lengths (0, 1, 2, 12-30, 63-66, 253-257, 1023-1025, 4096, 65535, 65536) + all 1-byte inputs, each also in a read-only page against a guard page", total);
 }
 
 static void stage_guard(Run &R) {
@@ -176,13 +179,16 @@ static void stage_guard(Run &R) {
 }
 
 static void stage_random(Run &R) {
+    std::optional<Failure> leak;
     rc_run(R, "C06 all entry points on generated inputs (exact-size heap block, 3 eav_t pre-fills, 2 builds)", 4.0, [&](Src &s) -> std::optional<Failure> {
+        if (leak) return leak;
         Bytes a = gen_address(s, T);
         if (s.chance(1, 8)) { Bytes pad(200 + s.pick(3000), char('a' + s.pick(26))); a.insert(s.pick((uint32_t) a.size() + 1), pad); }
         auto f = check_one(R, a, s.chance(1, 4));
         if (f) return f;
         g_recent.push_back(a);
-        return leak_guard(R, false);
+        leak = leak_guard(R, false);
+        return leak;
     });
     if (!R.failed()) if (auto l = leak_guard(R, true)) R.fail(*l);
 }
